@@ -17,6 +17,9 @@ type usageScenario struct {
 	Mismatch bool   `json:"mismatch"` // the edited `by` selector asks for a label the using resource lacks
 	How      string `json:"how"`      // how the Usage came to be deleted
 	Hold     bool   `json:"hold"`     // the using resource's provider holds a finalizer on it
+	// UsingLabel: the using resource's crossplane.io/composite label: "" same root as the Usage, "none"
+	// stripped (hand-created), "other" another root composite's value
+	UsingLabel string `json:"usingLabel,omitempty"`
 }
 
 func (sc usageScenario) script() []act {
@@ -28,7 +31,12 @@ func (sc usageScenario) script() []act {
 	if sc.Mismatch {
 		j = 1
 	}
-	s = append(s, act{Op: "unresolve-usage", Obj: sc.Side, J: j})
+	if sc.UsingLabel != "" {
+		s = append(s, act{Op: "relabel-using", Obj: sc.UsingLabel})
+	}
+	if sc.Side != "resolved" { // "resolved": spec.by / spec.of keep their recorded resourceRefs
+		s = append(s, act{Op: "unresolve-usage", Obj: sc.Side, J: j})
+	}
 	switch sc.How {
 	case "user-deletes-usage":
 		s = append(s, act{Op: "del-composed", Obj: "usage"})
@@ -64,6 +72,22 @@ func TestVerifC08UsageSelectors(t *testing.T) {
 			}
 		}
 	}
+	// the using resource does not carry the Usage's composite label: by.resourceRef and by.resourceSelector
+	for _, side := range []string{"resolved", "by"} {
+		for _, ul := range []string{"", "none", "other"} {
+			if side == "by" && ul == "" {
+				continue // already above
+			}
+			for _, how := range []string{"user-deletes-usage", "used-resource-gone-first", "xr-foreground", "using-deleted-too"} {
+				for _, hold := range []bool{false, true} {
+					if how == "using-deleted-too" && !hold {
+						continue
+					}
+					scs = append(scs, usageScenario{Side: side, How: how, Hold: hold, UsingLabel: ul})
+				}
+			}
+		}
+	}
 	shard, shards := verifkit.Shard()
 	reached := 0
 	for si, sc := range scs {
@@ -82,7 +106,14 @@ func TestVerifC08UsageSelectors(t *testing.T) {
 		if len(ks) != 1 {
 			t.Fatalf("scenario %s: expected the Usage to linger, store: %v", verifkit.JSON(sc), w.sim.AllKeys())
 		}
-		inClass := w.usageClass(ks[0])
+		foreign := w.usageForeignUsing(ks[0])
+		if sc.UsingLabel != "" && foreign != sc.UsingLabel {
+			t.Fatalf("scenario %s: the using resource's label state is %q at the deletion reconcile", verifkit.JSON(sc), foreign)
+		}
+		if foreign != "" {
+			rec.Labelf("usage-scenario using resource alive, composite label=%s, by=%s", foreign, map[bool]string{true: "resourceRef", false: "resourceSelector"}[sc.Side == "resolved"])
+		}
+		inClass := w.usageClass(ks[0]) || foreign != ""
 		rec.Labelf("usage-scenario how=%s", sc.How)
 		if inClass {
 			reached++
